@@ -39,8 +39,9 @@ class VFunc(object):
     self.node = node
     self.mod = mod
     self.cls = cls            # lexically enclosing class name (for __mangled lookups, super)
-    self.frame_id = frame_id  # enclosing frame for free variables (None for top level)
+    self.frame_id = frame_id  # enclosing frame chain for free variables (None for top level)
     self.qual = qual
+    self.fn_id = 5000000 + next(_counter)
   ty = FN
 
 
@@ -132,6 +133,8 @@ def _default_terms(ty):
 
 def coerce(v, ty):
   """Single z3 term of v at scalar/reference type ty."""
+  if isinstance(v, VFunc) and ty.k in ('fn', 'any'):
+    return z3.IntVal(v.fn_id)
   if isinstance(v, (VFunc, VBound, VClass, VModule)):
     raise Unsupported('storing a callable into %r' % ty)
   if v.ty.k == 'none':
@@ -182,6 +185,7 @@ class State(object):
     self.alloc = None       # z3 Int: allocation counter
     self.path = []          # human readable branch decisions
     self.entry_args = {}    # param name -> entry value (for old())
+    self.choices = []       # results of extern calls on this path (name, value)
 
   def fork(self):
     s = State()
@@ -192,6 +196,7 @@ class State(object):
     s.alloc = self.alloc
     s.path = list(self.path)
     s.entry_args = self.entry_args
+    s.choices = list(self.choices)
     return s
 
   def assume(self, b):
